@@ -104,6 +104,19 @@ Theorem C10_lock_partial : forall mode X s l v c,
 Proof. exact lock_refuses. Qed.
 Print Assumptions C10_lock_partial.
 
+(* The lock looks at `running` ALONE.  execute() / run(check_readiness=False) skip the readiness gate (the only
+   place that looks at `failed`), so a node whose sticky failed flag is still set goes out again: running and
+   failed both set -- and C10_lock_partial / C10_frozen_while_out apply to it as to any node that is out. *)
+Theorem C10_out_again_with_failed_flag : forall mode X s sd (fetching : bool) h1,
+  (if fetching then fetch (c_heap s) X else Some (c_heap s)) = Some h1 ->
+  crosses (n_exec (nd h1 X)) = true ->
+  dump DFUEL (set_flags h1 X true (n_failed (nd h1 X))) X = Some sd ->
+  let s1 := step mode X s (if fetching then ORunX else OExec) in
+  n_running (nd (c_heap s1) X) = true /\ n_failed (nd (c_heap s1) X) = n_failed (nd h1 X) /\
+  c_jobs s1 = c_jobs s ++ [JPick X sd].
+Proof. exact gateless_submit_goes_out. Qed.
+Print Assumptions C10_out_again_with_failed_flag.
+
 (* after a merge that guard holds for every input of the merged node: the lock works the next time it is out *)
 Theorem C10_lock_again_after_merge : forall h i c2 s l v c X,
   merge_pre h i c2 -> c_heap s = merge_remote AsWritten h i c2 -> X = i ->
@@ -252,3 +265,17 @@ Example C10_nested_keeps_shown :
   match find_chan (c_heap s) 1 PIn "x" with Some c => c_recv (ch (c_heap s) c) | None => None end
     = find_chan (c_heap s) 2 PIn "x".
 Proof. exact relink_keeps_shown. Qed.
+
+(* the real function node /wf/n0 = Chk1(k 3, a 3) on the pickle-boundary executor: fail out there (a = -2), repair
+   (a = 9), execute(): out with the failed flag still set; assignments bounce and change nothing; the delivered
+   output belongs to a = 9 *)
+Example C10_failed_then_out_frozen :
+  let s := run_ops AsWritten 1 demo_chk [OSet "a" (-2)%Z; ORun; OComplete; OSet "a" 9%Z; OExec] in
+  n_running (nd (c_heap s) 1) = true /\ n_failed (nd (c_heap s) 1) = true /\
+  let s' := step AsWritten 1 (step AsWritten 1 s (OSet "a" 25%Z)) (OSet "k" 20%Z) in
+  c_log s' = [OS "ok"; OS "Future"; OS "done"; OS "ok"; OS "Future"; OS "RuntimeError"; OS "RuntimeError"] /\
+  c_heap s' = c_heap s /\
+  let s'' := step AsWritten 1 s' OComplete in
+  chan_val (c_heap s'') 1 PIn "a" = Some 9%Z /\ chan_val (c_heap s'') 1 POut "y" = Some 12%Z /\
+  n_running (nd (c_heap s'') 1) = false /\ n_failed (nd (c_heap s'') 1) = true.
+Proof. exact failed_then_out_example. Qed.
